@@ -62,10 +62,21 @@ Qed.
 (* ---- the partition invariant *)
 Definition covered_by2 (x : Z) (l : list (Z * Z)) : Prop := exists r, In r l /\ fst r <= x < fst r + snd r.
 
+Lemma total_app a b : total (a ++ b) = total a + total b.
+Proof. induction a; simpl; lia. Qed.
+
+Lemma total_perm a b : Permutation a b -> total a = total b.
+Proof. induction 1; simpl; lia. Qed.
+
+Definition payload (p : pool) : Z := total (flat_map stored (trees p)).   (* bytes owned by constants *)
+Definition free_bytes (p : pool) : Z := total (concat (gaps p)).          (* bytes in registered free gaps *)
+
 Record Part (p : pool) (L : list gap) : Prop := {
+  pt_total : payload p + free_bytes p + total L = psize p;
+  pt_payload : psize p <= 2 * payload p;
   pt_disj : pairwise disj (regions p ++ L);
   pt_cover : forall x, 0 <= x < psize p -> covered_by2 x (regions p ++ L);
-  pt_bound : Forall (fun r => 0 <= fst r /\ fst r + snd r <= psize p) L
+  pt_bound : Forall (fun r => 0 <= fst r /\ 0 < snd r /\ fst r + snd r <= psize p) L
 }.
 
 Lemma covered_perm x l l' : Permutation l l' -> covered_by2 x l -> covered_by2 x l'.
@@ -139,12 +150,18 @@ Proof.
                               ((g :: flat_map stored (trees p)) ++ concat (upd ti (skipn (6 - ti) stack) (gaps p)))).
     { apply Permutation_app_tail. rewrite Eg. exact P. }
     pose proof (perm_gap_path _ _ _ _ RL L g PR PR') as PP.
+    pose proof (pt_total _ _ PT) as TT. pose proof (pt_payload _ _ PT) as TP.
+    pose proof (total_perm _ _ PP) as TE. pose proof (total_perm _ _ P) as TF.
+    unfold regions in TE. rewrite !total_app in TE. simpl total in TF. unfold payload, free_bytes in *.
     constructor.
+    + change (total (flat_map stored ts2) + total (concat (upd ti (skipn (6 - ti) stack) (gaps p))) + total (L ++ RL) = psize p).
+      rewrite total_app. lia.
+    + change (psize p <= 2 * total (flat_map stored ts2)). lia.
     + apply (pairwise_perm disj disj_sym _ _ (Permutation_sym PP)). apply (pt_disj _ _ PT).
     + intros x Hx. apply (covered_perm x _ _ (Permutation_sym PP)). apply (pt_cover _ _ PT); auto.
     + apply Forall_app. split; [apply (pt_bound _ _ PT)|]. apply Forall_forall. intros x Hx.
       assert (In x stack) by (eapply in_firstn; apply (in_removelast_app popped (0, 0) x NE Hx)).
-      destruct (inv_gaps _ I ti x H) as (A1 & A2 & A3 & A4 & A5). simpl psize. lia.
+      destruct (inv_gaps _ I ti x H) as (A1 & A2 & A3 & A4 & A5). pose proof (pow2_gt0 ti). simpl psize. lia.
   - (* aligned append: nothing is lost *)
     pose proof (last_off_none _ LO) as Ep.
     assert (Er' : removelast (firstn (6 - ti) (nth ti (gaps p) [])) = []) by (change (removelast popped = []); rewrite Ep; reflexivity).
@@ -160,13 +177,13 @@ Proof.
     set (gs2 := if diff =? 0 then gaps p else add_gap (gaps p) (psize p) diff) in *.
     pose proof (inv_size _ I) as S0.
     assert (X : exists new, Permutation (concat gs2) (new ++ concat (gaps p)) /\
-              Forall (fun g => psize p <= fst g /\ fst g + snd g <= psize p + diff) new /\ pairwise disj new).
-    { unfold gs2. destruct (diff =? 0).
+              Forall (fun g => psize p <= fst g /\ fst g + snd g <= psize p + diff) new /\ pairwise disj new /\ total new = diff).
+    { unfold gs2. destruct (Z.eqb_spec diff 0).
       - exists []. simpl. repeat split; auto.
-      - destruct (add_gap_spec (gaps p) (psize p) diff) as (new & A1 & A2 & A3 & A4 & A5 & _); auto; try lia.
+      - destruct (add_gap_spec (gaps p) (psize p) diff) as (new & A1 & A2 & A3 & A4 & A5 & _ & A7); auto; try lia.
         { apply (inv_lg _ I). }
         exists new. auto. }
-    destruct X as (new & PG & FG & PWG). rewrite Forall_forall in FG.
+    destruct X as (new & PG & FG & PWG & TN). rewrite Forall_forall in FG.
     injection E as Ep2 Er. subst p' r. simpl trees in *; simpl gaps in *; simpl psize in *.
     destruct R as (V & _ & [Eq|NS]).
     { exfalso. apply (f_equal psize) in Eq. simpl psize in Eq. lia. }
@@ -178,7 +195,12 @@ Proof.
       etransitivity; [apply Permutation_app_tail; apply P|]. simpl. apply perm_skip.
       etransitivity; [apply Permutation_app_head; apply Permutation_app_tail; apply PG|].
       rewrite <- !app_assoc. apply Permutation_app_swap_app. }
+    pose proof (pt_total _ _ PT) as TT. pose proof (pt_payload _ _ PT) as TP.
+    pose proof (total_perm _ _ PP) as TE. pose proof (total_perm _ _ P) as TF.
+    unfold regions in TE. rewrite !total_app in TE. simpl total in TE, TF. unfold payload, free_bytes in *.
     constructor.
+    + change (total (flat_map stored ts2) + total (concat gs2) + total L = psize p + diff + s). lia.
+    + change (psize p + diff + s <= 2 * total (flat_map stored ts2)). lia.
     + apply (pairwise_perm disj disj_sym _ _ (Permutation_sym PP)).
       apply pairwise_app. split; [|split; [apply (pt_disj _ _ PT)|]].
       * simpl. split; auto. apply Forall_forall. intros x Hx. destruct (FG x Hx). unfold disj; simpl. right. unfold off. lia.
@@ -218,6 +240,8 @@ Qed.
 Lemma part_init : Part cp_init [].
 Proof.
   constructor.
+  - reflexivity.
+  - simpl. unfold payload. simpl. lia.
   - simpl. exact I.
   - intros x Hx. simpl in Hx. lia.
   - constructor.
@@ -235,10 +259,51 @@ Proof.
   intros W G p.
   pose proof (part_run cmds cp_init [] init_inv part_init W G) as PT. simpl app in PT. fold (final cmds) in PT. fold p in PT.
   fold (lost cmds) in PT.
-  split; [apply (pt_disj _ _ PT)|]. split; [apply (pt_cover _ _ PT)|]. split; [apply (pt_bound _ _ PT)|].
+  split; [apply (pt_disj _ _ PT)|]. split; [apply (pt_cover _ _ PT)|].
+  split; [eapply Forall_impl; [|apply (pt_bound _ _ PT)]; simpl; intros; lia|].
   intros E x Hx. destruct (pt_cover _ _ PT x Hx) as (r & Hr & C). rewrite E, app_nil_r in Hr. eauto.
 Qed.
 
 (* the quirk witness of DESIGN 7.12 in this vocabulary: exactly the gap (10, 2) is lost *)
 Lemma lost_quirk_witness : lost ex_quirk = [(10, 2)].
 Proof. vm_compute. reflexivity. Qed.
+
+Lemma total_nonneg (l : list (Z * Z)) sz : Forall (fun r => 0 <= fst r /\ 0 < snd r /\ fst r + snd r <= sz) l -> 0 <= total l.
+Proof. induction 1; simpl; lia. Qed.
+
+(* the cost of the quirk: exact byte accounting and a bound on the pool size in terms of the payload.
+   size() = bytes owned by constants + bytes in free gaps + bytes of lost gaps, so the bytes that can never be used again are
+   EXACTLY the lost gaps; and size() <= 2 * payload whatever the history (padding + free + lost never exceed the payload) *)
+Theorem quirk_cost_thm cmds : wf_cmds cmds -> guard cmds ->
+  let p := final cmds in
+  psize p = payload p + free_bytes p + total (lost cmds) /\
+  psize p <= 2 * payload p /\
+  free_bytes p + total (lost cmds) <= payload p /\
+  0 <= total (lost cmds).
+Proof.
+  intros W G p.
+  pose proof (part_run cmds cp_init [] init_inv part_init W G) as PT. simpl app in PT. fold (final cmds) in PT. fold p in PT.
+  fold (lost cmds) in PT.
+  pose proof (pt_total _ _ PT) as TT. pose proof (pt_payload _ _ PT) as TP.
+  assert (0 <= total (lost cmds)).
+  { eapply total_nonneg. apply (pt_bound _ _ PT). }
+  repeat split; lia.
+Qed.
+
+(* the gap loop in every reachable state: it pops min(6 - ti, |stack|) gaps of the class stack and answers the offset of the
+   last one; its "split the rest of the gap" branch (which would re-register the remainder at the gap's ORIGINAL offset) is
+   never taken, because every gap on stack ti is exactly 2^ti bytes *)
+Theorem gap_loop_reachable_thm cmds ti : wf_cmds cmds -> guard cmds -> (ti <= 6)%nat ->
+  let p := final cmds in
+  let stack := nth ti (gaps p) [] in
+  gap_loop (6 - ti) ti (pow2 ti) (gaps p) None =
+    (upd ti (skipn (6 - ti) stack) (gaps p), last_off (firstn (6 - ti) stack) None) /\
+  (forall g, In g stack -> snd g = pow2 ti /\ fst g mod pow2 ti = 0).
+Proof.
+  intros W G L p stack.
+  pose proof (sp_inv _ _ (final_spec cmds W G)) as I. fold (final cmds) in I. fold p in I.
+  assert (H : forall g, In g (nth ti (gaps p) []) -> snd g = pow2 ti).
+  { intros g Hg. destruct (inv_gaps _ I ti g Hg) as (A & _). auto. }
+  split; [apply gap_loop_exact; auto|].
+  intros g Hg. destruct (inv_gaps _ I ti g Hg) as (A & _ & C & _). auto.
+Qed.
